@@ -127,6 +127,9 @@ ChooseClientFault ==
                /\ scn' = [scn EXCEPT !.cl.frames[n].fault = ff]
        \/ /\ ~Enveloped(scn.cl.form) /\ n >= 1 /\ scn.cl.form # "connect_get"
           /\ \E k \in {"over", "under"} : scn' = [scn EXCEPT !.cl.clen = k]
+       \* an enveloped client ends its stream without sending the one message a unary / server-streaming call needs
+       \/ /\ Enveloped(scn.cl.form) /\ n = 1 /\ MethodInfo(scn.cl.method).stream \in {"unary", "server"}
+          /\ scn' = [scn EXCEPT !.cl.frames = <<>>]
     /\ ph' = "handler"
     /\ UNCHANGED m
 
@@ -245,7 +248,9 @@ ChooseHandlerFault ==
                /\ \E ft \in {"cutenv:2", "cutpay:1", "cutpay:0"} : scn' = [scn EXCEPT !.hd.fault = ft]
             \* the handler stops inside a frame but still ends the RPC with an OK status (gRPC trailers)
             \/ /\ Srv.form = "grpc" /\ n >= 1
-               /\ \E ft \in {"cutenvok:2", "cutpayok:1", "cutpayok:0"} : scn' = [scn EXCEPT !.hd.fault = ft]
+               \* (with either way of declaring its trailers)
+               /\ \E ft \in {"cutenvok:2", "cutpayok:1", "cutpayok:0"}, sty \in {"declared", "prefixed"} :
+                    scn' = [scn EXCEPT !.hd.fault = ft, !.hd.end.style = sty]
             \/ /\ n >= 1
                /\ \E ff \in FrameFaults(scn.hd.frames[n].z) :
                     /\ (~se => ff \in {"undecodable", "gzcorrupt"})
